@@ -166,6 +166,21 @@ def r11_1(model: Model, rep: Report, classes) -> None:
             else:
                 if (fld,) not in full:
                     problems.append(f"field `{fld}` is never read by the key")
+        # subscripts of counterfactual variables: wherever the key walks over `<variable>.interventions` it must read BOTH the name and
+        # the star (the value) of each intervention -- equality of variables compares the intervention objects themselves
+        for s_ in subterms(key):
+            if s_[0] != "comp":
+                continue
+            for pat, it, _cs in s_[3]:
+                core = it
+                while core[0] == "call" and core[2]:
+                    core = core[2][0]
+                if core[0] == "attr" and core[2] == "interventions" and pat[0] == "var":
+                    got = {u[2] for u in subterms(s_[2]) if u[0] == "attr" and u[1] == pat}
+                    whole = any(u == pat for u in (s_[2],)) or (s_[2][0] == "tuplelit" and pat in s_[2][1])
+                    if not whole and not {"name", "star"} <= got:
+                        problems.append(f"the key reads only {sorted(got)} of each subscript (intervention) of a counterfactual variable; equality also compares "
+                                        f"{sorted({'name', 'star'} - got)}: P(Y_x) and P(Y_x*) get the same key")
         sample = {"key": short(show(key), 300), "full_reads": sorted(".".join(p) for p in full), "partial_reads": {".".join(p): m for p, m in partial.items()}}
         if problems:
             msg = "; ".join(problems) + " -- two unequal factors tie, the stable sort keeps their input order, and permuted products canonicalise differently"
